@@ -19,7 +19,9 @@ def run(ctx):
                 "real re-centring (compute_sufficient_statistics) is applied and TLC checks the verdicts (TrajectoryTrace.tla): "
                 "trajectories, per-individual attachments and event likelihoods unchanged within 1e-5 (1 + |value|), mean of the "
                 "log-accelerations <= 1e-6, every mixing-matrix row orthogonal in the metric to the progression direction "
-                "(|dot| <= 1e-5 ||row|| ||G v0||). Distinct = distinct (configuration, triple, extreme).")
+                "(cosine in the metric <= 1e-4; metric and direction are the terms of Trajectory.tla part D evaluated at the state's g, v0, "
+                "deltas - not the model's own metric variable), also with velocities near the single-precision floor and with features far "
+                "apart at the reference time; the shared-speed model (no re-centring) is checked for orthogonality only. Distinct = distinct (configuration, triple, extreme).")
     ctx.assumptions = ["numeric orthogonality / invariance are judged in float64 on float32 states with the stated tolerances"]
     tmp = os.path.join(ctx.tmp, "gauge")
     os.makedirs(tmp, exist_ok=True)
@@ -31,17 +33,22 @@ def run(ctx):
     configs = ["logistic_diag_src1", "linear_scalar_src1", "joint_src1", "joint_nosrc"] if q else \
         ["logistic_diag_src1", "logistic_scalar_src1", "logistic_diag_nosrc", "linear_scalar_src1", "linear_diag_src1", "joint_src1",
          "joint_nosrc", "joint_univariate", "logistic_binary"]
+    # the terms of the squared metric and of the direction of progression, per family (stated in Trajectory.tla)
+    metric_terms = {str(c["kind"]): (tj.totuple(c["msq"]), tj.totuple(c["dir"])) for c in cs}
     triples = sorted({tuple(c["xis"]) for c in cs})
     rnd.shuffle(triples)
     recs = []
-    for cfg in configs:
-        extremes = [None, "xi", "reverted"] + (["nu"] if cfg.startswith("joint") else [])
-        n_each = 6 if q else 25
+    # the shared-speed model has no re-centring step: only the orthogonality of its mixing matrix is checked
+    for cfg in configs + ["shared_speed_src1"]:
+        recenter = not cfg.startswith("shared_speed")
+        extremes = ([None, "xi", "reverted"] if recenter else [None]) + ["tiny_v0", "staggered"] + (["nu"] if cfg.startswith("joint") else [])
+        n_each = (6 if q else 25) if recenter else (4 if q else 15)
         for ext in extremes:
             for xs in triples[:n_each]:
                 if sum(xs) == 0 and ext in ("xi", "nu"):
                     continue
-                recs.append(tj.run_gauge_case(cfg, list(xs), rnd, ext))
+                fam = "shared" if cfg.startswith("shared_speed") else ("linear" if cfg.startswith("linear") else "logistic")
+                recs.append(tj.run_gauge_case(cfg, list(xs), rnd, ext, recenter=recenter, family=fam, metric_terms=metric_terms[fam]))
                 ctx.case(key=(cfg, xs, ext))
             rnd.shuffle(triples)
     ok, idx, r2 = cases.validate_records("TrajectoryTrace", CFG_T, recs, tmp, "gauge_conf")
